@@ -108,7 +108,7 @@ func TestC04New(t *testing.T) {
 		self, other := peers[0], peers[1]
 		pull := c.Index%2 == 0
 		viaNet := (c.Index/2)%2 == 0 || !pull // push requests always arrive over the network
-		shape := (c.Index / 4) % 5        // 0,1 registered type; 2 unregistered; 3 missing voucher; 4 missing selector
+		shape := (c.Index / 4) % 5            // 0,1 registered type; 2 unregistered; 3 missing voucher; 4 missing selector
 		out := genOutcome(c, c.Index/20)
 		f := newMgrFix(c, self, nil)
 		f.val.SetOutcome(func(kind string, n int, chid datatransfer.ChannelID) (datatransfer.ValidationResult, error) {
@@ -256,7 +256,7 @@ func TestC04Restart(t *testing.T) {
 		self, other := peers[0], peers[1]
 		pull := c.Index%2 == 0
 		viaNet := (c.Index/2)%2 == 0 || !pull // push (restart) requests always arrive over the network
-		mode := (c.Index / 4) % 4 // 0 restart request, 1 UpdateValidationStatus, 2 restart after process restart with the type not registered, 3 validation update for an unknown channel
+		mode := (c.Index / 4) % 4             // 0 restart request, 1 UpdateValidationStatus, 2 restart after process restart with the type not registered, 3 validation update for an unknown channel
 		out := genOutcome(c, c.Index/12)
 		f := newMgrFix(c, self, nil)
 		v := gen.Voucher(r, gen.Pick(r, regTypes))
